@@ -175,9 +175,9 @@ claim('C06',
 claim('C16',
       '"Error instead of silent NaN" clause. (A) Function and loop contracts on the real helpers check_args, check_result, '
       'format_eval_error, check_const_arg, check_int_arg, check_uint_arg, check_zero_func_args, check_deriv_arg, check_bessel_args for '
-      'any argument count. (B) For every binding registered with ADDFUNC (table read on each run; quick tier: a seed-chosen 10% sample plus '
-      'five fixed ones, thorough tier: all ~342) the real body is checked with every gsl_* function given an arbitrary result: '
-      'when no error message is set the value and the requested derivative / Hessian entries are not NaN, derivative arrays '
+      'any argument count. (B) For every binding registered with ADDFUNC (table read on each run; both tiers: all ~342; the thorough tier re-proves a seed-chosen 10% sample with '
+      'a second SAT back end) the real body is checked with every gsl_* function given an arbitrary result: whenever a GSL function '
+      'with a status result (*_e family) reports a failure an error message is set; when no error message is set the value and the requested derivative / Hessian entries are not NaN, derivative arrays '
       'are written only inside their n and n(n+1)/2 entries, no signed overflow in the derivative formulas; the helper loops are '
       'bounded by the arity constant, so the per-binding checks are complete.',
       'Trusted: CBMC, extractor (whole binding section compiled as C), the funcadd.h stub written from ASL\'s public interface, the '
